@@ -628,6 +628,24 @@ def extra_valid(name):
                 return '%s %s %s%s' % (court, reg, nr, x)
             return '%s %s%s, %s' % (reg, nr, x, court)
         return s()
+    if name == 'gs1_128':
+        # every registered application identifier with a value drawn from the independent value model (one or two elements)
+        from vf.refs import gs1model
+        ais = sorted(a for a in gs1model.ais() if gs1model.modelled(a))
+
+        @st.composite
+        def s(draw):
+            items = []
+            for _ in range(draw(st.integers(1, 2))):
+                ai = draw(st.sampled_from(ais))
+                enc, _val = draw(gs1model.value(ai, ''))
+                items.append((ai, enc))
+            parens = draw(st.booleans())
+            fixed = [i for i in items if not gs1model.ais()[i[0]].get('fnc1')]
+            var = [i for i in items if gs1model.ais()[i[0]].get('fnc1')]
+            out = gs1model.build(fixed + var, '', parens)
+            return out if out is not None else (('(%s)' if parens else '%s') % items[0][0]) + items[0][1]
+        return s()
     if name == 'cfi':
         import os
         from vf.refs import numdbref
